@@ -6,6 +6,8 @@ Tables (emitted to lean/NessaiVerif/Gen/Tables.lean):
   rngSites         every call site that draws (or seeds, or constructs) random numbers
   seededSources    the random sources seeded by BaseNestedSampler.configure_random_seed
   guardedDraws     places where drawing random numbers is conditional on a parallelisation setting
+  seedReplaced / seedBinds / seedCalls   the decision logic of configure_random_seed (when the seed is replaced, what is
+                   stored, which generators are seeded with it and whether unconditionally)
 
 Nothing here decides what is acceptable: the allow-lists live in the hand-written Lean model
 (lean/NessaiVerif/Model/Tables.lean) and the theorems of Props/C14.lean are re-proved over the regenerated tables.
@@ -393,6 +395,101 @@ def scan_guarded_draws(rel, tree, drawing, props, al):
     return out
 
 
+
+# ------------------------------------------------------------------------------------------------ configure_random_seed
+SEED_FILE, SEED_CLASS, SEED_FUNC = "nessai/samplers/base.py", "BaseNestedSampler", "configure_random_seed"
+_CMP = {ast.Eq: "eq", ast.NotEq: "ne", ast.Lt: "lt", ast.LtE: "le", ast.Gt: "gt", ast.GtE: "ge"}
+
+
+def guard_to_lean(node, var):
+    """Lean Bool expression over `seed : Option Int` for a Python condition on the seed argument"""
+    if isinstance(node, ast.Name) and node.id == var:
+        return "pyTruthy seed"
+    if isinstance(node, ast.UnaryOp) and isinstance(node.op, ast.Not):
+        return "!(" + guard_to_lean(node.operand, var) + ")"
+    if isinstance(node, ast.BoolOp):
+        op = " && " if isinstance(node.op, ast.And) else " || "
+        return "(" + op.join(guard_to_lean(v, var) for v in node.values) + ")"
+    if isinstance(node, ast.Compare) and len(node.ops) == 1 and isinstance(node.left, ast.Name) and node.left.id == var:
+        op, rhs = node.ops[0], node.comparators[0]
+        if isinstance(rhs, ast.Constant) and rhs.value is None:
+            if isinstance(op, (ast.Is, ast.Eq)):
+                return "pyIsNone seed"
+            if isinstance(op, (ast.IsNot, ast.NotEq)):
+                return "!(pyIsNone seed)"
+        if isinstance(rhs, ast.UnaryOp) and isinstance(rhs.op, ast.USub) and isinstance(rhs.operand, ast.Constant):
+            rhs = ast.Constant(-rhs.operand.value)
+        if isinstance(rhs, ast.Constant) and isinstance(rhs.value, int) and not isinstance(rhs.value, bool) and type(op) in _CMP:
+            c = rhs.value
+            return f"pyCmp .{_CMP[type(op)]} seed ({c})"
+    raise ScanError(f"{SEED_FUNC}: condition `{src(node, 200)}` on the seed is outside the translated fragment")
+
+
+def scan_seed_function(tree, al):
+    fn = None
+    for node in ast.walk(tree):
+        if isinstance(node, ast.ClassDef) and node.name == SEED_CLASS:
+            for b in node.body:
+                if isinstance(b, ast.FunctionDef) and b.name == SEED_FUNC:
+                    fn = b
+    if fn is None:
+        raise ScanError(f"{SEED_CLASS}.{SEED_FUNC} not found in {SEED_FILE}")
+    args = [a.arg for a in fn.args.args]
+    if len(args) != 2:
+        raise ScanError(f"{SEED_FUNC}: expected (self, seed), found {args}")
+    var = args[1]
+    if any(isinstance(n, (ast.Return, ast.Try, ast.While, ast.For, ast.With, ast.Raise)) for n in ast.walk(fn)):
+        raise ScanError(f"{SEED_FUNC}: control flow outside the translated fragment (return/try/loop/with/raise)")
+    guard = None
+    binds, calls = [], []
+
+    def visit(stmts, in_guard, top):
+        nonlocal guard
+        for st in stmts:
+            if isinstance(st, ast.If):
+                rebinding = any(isinstance(n, ast.Assign) and any(isinstance(t, ast.Name) and t.id == var for t in n.targets)
+                                for b in st.body for n in ast.walk(b))
+                if rebinding and top:
+                    if guard is not None:
+                        raise ScanError(f"{SEED_FUNC}: more than one branch rebinds `{var}`")
+                    if st.orelse:
+                        raise ScanError(f"{SEED_FUNC}: the replacement branch has an else")
+                    guard = st
+                    visit(st.body, True, False)
+                else:
+                    visit(st.body, in_guard, False)
+                    visit(st.orelse, in_guard, False)
+                continue
+            for n in ast.walk(st):
+                if isinstance(n, (ast.Assign, ast.AugAssign, ast.AnnAssign)):
+                    targets = n.targets if isinstance(n, ast.Assign) else [n.target]
+                    for tg in targets:
+                        name = dotted(tg)
+                        if name in (var, "self.seed"):
+                            val = src(n.value, 120) if n.value is not None else ""
+                            if isinstance(n, ast.AugAssign):
+                                val = "<augmented>" + val
+                            binds.append(dict(line=n.lineno, target="seed" if name == var else "self.seed",
+                                              value=val.replace(var, "seed") if val == var else val, inGuard=in_guard))
+                if isinstance(n, ast.Call):
+                    c = classify_call(n, al)
+                    if c is not None and c[1] == "seed":
+                        a = n.args[0] if n.args else _kw(n, "seed")
+                        arg = src(a, 80) if a is not None else ""
+                        if arg == var:
+                            arg = "seed"
+                        calls.append(dict(line=n.lineno, call=c[0], source=c[2], arg=arg,
+                                          unconditional=bool(top and isinstance(st, ast.Expr) and st.value is n)))
+
+    visit(fn.body, False, True)
+    if guard is None:
+        lean, text, line = "false", "<no branch rebinds the seed>", fn.lineno
+    else:
+        lean, text, line = guard_to_lean(guard.test, var), " ".join(ast.unparse(guard.test).split()).replace("-/", "- /"), guard.lineno
+    seg = ast.get_source_segment  # noqa
+    return dict(guard_lean=lean, guard_src=text, guard_line=line, binds=binds, calls=calls,
+                first=fn.lineno, last=fn.end_lineno)
+
 # ------------------------------------------------------------------------------------------------ whole package
 def scan(repo):
     repo = Path(repo)
@@ -426,11 +523,17 @@ def scan(repo):
     seeded = sorted({s["source"] for s in sites
                      if s["kind"] == "seed" and s["func"].endswith("configure_random_seed")
                      and s["file"] == "nessai/samplers/base.py"})
+    seedfn = None
+    for rel, tree in trees:
+        if rel == SEED_FILE:
+            seedfn = scan_seed_function(tree, aliases[rel])
+    if seedfn is None:
+        raise ScanError(f"{SEED_FILE} not found")
     for s in sites:
         s.pop("_node", None)
     key = lambda d: (d["file"], d["line"], d.get("setting", ""), d.get("call", ""), d.get("method", ""), d.get("draw", ""))  # noqa
     return dict(reads=sorted(reads, key=key), calls=sorted(calls, key=key), sites=sorted(sites, key=key),
-                guarded=sorted(guarded, key=key), seeded=seeded, n_files=len(files), sha256=h.hexdigest())
+                guarded=sorted(guarded, key=key), seeded=seeded, seedfn=seedfn, n_files=len(files), sha256=h.hexdigest())
 
 
 # ------------------------------------------------------------------------------------------------ rendering
@@ -475,6 +578,23 @@ def render(t):
     L.append("def guardedDraws : List GuardedDraw := [")
     rows = [f"  ⟨{lstr(r['file'])}, {lstr(r['func'])}, {r['line']}, {lstr(r['setting'])}, {lstr(r['draw'])}⟩" for r in t["guarded"]]
     L += _commas(rows)
+    L.append("]")
+    L.append("")
+    sf = t["seedfn"]
+    L.append(f"/- source: {SEED_FILE} lines {sf['first']}-{sf['last']} ({SEED_CLASS}.{SEED_FUNC}); guard at line {sf['guard_line']}:")
+    L.append(f"   if {sf['guard_src']}: seed = <random replacement> -/")
+    L.append("/-- is the seed argument REPLACED by a randomly drawn one? (the condition of the branch that rebinds `seed`) -/")
+    L.append("def seedReplaced (seed : Option Int) : Bool := " + sf["guard_lean"])
+    L.append("")
+    L.append("/-- every assignment to `seed` / `self.seed` in `configure_random_seed` -/")
+    L.append("def seedBinds : List SeedBind := [")
+    L += _commas([f"  ⟨{b['line']}, {lstr(b['target'])}, {lstr(b['value'])}, {'true' if b['inGuard'] else 'false'}⟩" for b in sf["binds"]])
+    L.append("]")
+    L.append("")
+    L.append("/-- every seeding call in `configure_random_seed`: generator, argument, and whether it is a top-level statement -/")
+    L.append("def seedCalls : List SeedCall := [")
+    L += _commas([f"  ⟨{c['line']}, {lstr(c['call'])}, .{c['source']}, {lstr(c['arg'])}, {'true' if c['unconditional'] else 'false'}⟩"
+                  for c in sf["calls"]])
     L.append("]")
     L.append("")
     L.append("end NessaiVerif.Gen.Tables")
